@@ -2,6 +2,7 @@ package main
 
 import (
 	"fmt"
+	"regexp"
 	"os"
 	"sort"
 	"go/token"
@@ -16,6 +17,28 @@ import (
 type effect struct {
 	all   bool
 	names map[string]bool
+	fresh map[string]bool // arrays written only at objects allocated by the callee itself ("modifies fresh")
+}
+
+func newEffect() *effect { return &effect{names: map[string]bool{}, fresh: map[string]bool{}} }
+
+func (ef *effect) addFresh(n string) {
+	if ef.fresh == nil {
+		ef.fresh = map[string]bool{}
+	}
+	ef.fresh[n] = true
+}
+
+func (ef *effect) merge(ce *effect) {
+	if ce.all {
+		ef.all = true
+	}
+	for n := range ce.names {
+		ef.names[n] = true
+	}
+	for n := range ce.fresh {
+		ef.addFresh(n)
+	}
 }
 
 var purePkgs = map[string]bool{"strings": true, "strconv": true, "fmt": true, "errors": true, "unicode": true,
@@ -48,7 +71,8 @@ func shapeOf(addr ssa.Value) *Loc {
 
 func (e *Enc) effectOf(fn *ssa.Function) *effect {
 	if c := e.db.byFunc[fname(fn)]; c != nil && c.Pure {
-		return &effect{names: map[string]bool{}}
+		be := e.bodyEffect(fn)
+		return &effect{names: map[string]bool{}, fresh: be.fresh}
 	}
 	return e.bodyEffect(fn)
 }
@@ -60,7 +84,7 @@ func (e *Enc) bodyEffect(fn *ssa.Function) *effect {
 	if ef, ok := e.effects[fn]; ok {
 		if ef == nil { // in progress: recursive edge
 			e.effTaint = true
-			return &effect{names: map[string]bool{}}
+			return newEffect()
 		}
 		return ef
 	}
@@ -68,7 +92,7 @@ func (e *Enc) bodyEffect(fn *ssa.Function) *effect {
 	if fn.Blocks == nil || !strings.HasPrefix(pkgPath, modRoot) {
 		ef := &effect{all: true}
 		if purePkgs[pkgPath] {
-			ef = &effect{names: map[string]bool{}}
+			ef = newEffect()
 		}
 		e.effects[fn] = ef
 		return ef
@@ -76,10 +100,20 @@ func (e *Enc) bodyEffect(fn *ssa.Function) *effect {
 	e.effects[fn] = nil
 	savedTaint := e.effTaint
 	e.effTaint = false
-	ef := &effect{names: map[string]bool{}}
+	ef := newEffect()
 	for _, b := range fn.Blocks {
 		for _, in := range b.Instrs {
 			e.instrEffect(in, ef)
+		}
+	}
+	for n := range ef.names {
+		if strings.HasPrefix(n, "RV|") {
+			delete(ef.names, n) // ghost "visited" set of a map range: local to the invocation
+		}
+	}
+	for n := range ef.fresh {
+		if ef.names[n] {
+			delete(ef.fresh, n)
 		}
 	}
 	if e.effTaint && e.effDepth > 0 {
@@ -101,6 +135,24 @@ func (e *Enc) instrEffect(in ssa.Instruction, ef *effect) {
 		}()
 	}
 	switch in := in.(type) {
+	case *ssa.Alloc:
+		if in.Heap {
+			tmp := map[string]bool{}
+			t := in.Type().Underlying().(*types.Pointer).Elem()
+			if _, isArr := t.Underlying().(*types.Array); !isArr {
+				namesOfType(t, tmp)
+			}
+			for n := range tmp {
+				ef.addFresh(n)
+			}
+		}
+	case *ssa.MakeMap:
+		tmp := map[string]bool{}
+		if mapWriteNames(in.Type(), tmp) {
+			for n := range tmp {
+				ef.addFresh(n)
+			}
+		}
 	case *ssa.Next:
 		if rg, ok := in.Iter.(*ssa.Range); ok && mapInfoOf(rg.X.Type()).ok {
 			n := fmt.Sprintf("RV|%s|%s", fname(in.Parent()), rg.Name())
@@ -109,10 +161,25 @@ func (e *Enc) instrEffect(in ssa.Instruction, ef *effect) {
 		}
 	case *ssa.Store:
 		if rootAlloc(in.Addr) != nil {
-			return // object allocated by this very invocation: not a cell of the caller's pre-state
+			// object allocated by this very invocation: not a cell of the caller's pre-state
+			tmp := map[string]bool{}
+			writeNames(shapeOf(in.Addr), tmp)
+			for n := range tmp {
+				ef.addFresh(n)
+			}
+			return
 		}
 		writeNames(shapeOf(in.Addr), ef.names)
 	case *ssa.MapUpdate:
+		if _, fresh := in.Map.(*ssa.MakeMap); fresh {
+			tmp := map[string]bool{} // a map created by this very invocation
+			if mapWriteNames(in.Map.Type(), tmp) {
+				for n := range tmp {
+					ef.addFresh(n)
+				}
+				return
+			}
+		}
 		if !mapWriteNames(in.Map.Type(), ef.names) {
 			ef.all = true
 		}
@@ -143,6 +210,9 @@ func (e *Enc) instrEffect(in ssa.Instruction, ef *effect) {
 				}
 			}
 		case *ssa.Function:
+			if e.db.pureFns[callee.String()] {
+				return
+			}
 			if pkgPathOf(callee) == "sort" && len(c.Args) > 0 {
 				// sort.Strings / sort.Slice / sort.Ints ...: writes only the elements of the slice it is given
 				t := c.Args[0].Type()
@@ -165,34 +235,19 @@ func (e *Enc) instrEffect(in ssa.Instruction, ef *effect) {
 			e.effDepth++
 			ce := e.effectOf(callee)
 			e.effDepth--
-			if ce.all {
-				ef.all = true
-			}
-			for n := range ce.names {
-				ef.names[n] = true
-			}
+			ef.merge(ce)
 		case *ssa.MakeClosure:
 			e.effDepth++
 			ce := e.effectOf(callee.Fn.(*ssa.Function))
 			e.effDepth--
-			if ce.all {
-				ef.all = true
-			}
-			for n := range ce.names {
-				ef.names[n] = true
-			}
+			ef.merge(ce)
 		default:
 			if lf := localClosure(c.Value); lf != nil {
 				// a function literal stored once in a local variable and called through it
 				e.effDepth++
 				ce := e.effectOf(lf)
 				e.effDepth--
-				if ce.all {
-					ef.all = true
-				}
-				for n := range ce.names {
-					ef.names[n] = true
-				}
+				ef.merge(ce)
 				return
 			}
 			if fld := pureFieldOf(c.Value); fld != "" && e.db.pureFields[fld] {
@@ -219,17 +274,36 @@ func newEnc(prog *ssa.Program, fn *ssa.Function, db *ContractDB) *Enc {
 	return &Enc{prog: prog, fn: fn, db: db, con: db.byFunc[fname(fn)], declared: map[string]bool{},
 		vals: map[ssa.Value]*Val{}, locs: map[ssa.Value]*Loc{}, endState: map[*ssa.BasicBlock]State{},
 		reach: map[*ssa.BasicBlock]string{}, kindN: map[string]int{}, tags: map[string]int{},
-		params: map[string]*Val{}, effects: map[*ssa.Function]*effect{}, ranges: map[*ssa.Range]*rangeInfo{}, freeRef: map[string]*Val{}, merges: map[int]*mergeInfo{}, dyn: map[ssa.Value]types.Type{}}
+		params: map[string]*Val{}, effects: map[*ssa.Function]*effect{}, ranges: map[*ssa.Range]*rangeInfo{}, freeRef: map[string]*Val{}, merges: map[int]*mergeInfo{}, dyn: map[ssa.Value]types.Type{}, ghostSites: map[string]bool{}, siteResults: map[string]*Val{}, lastOrd: map[string]int{}}
 }
 
+var reachedRe = regexp.MustCompile(`reached\("([^"]+)"\)`)
+
 func (e *Enc) run() {
+	if e.con != nil {
+		scan := func(cs []*Clause) {
+			for _, c := range cs {
+				for _, m := range reachedRe.FindAllStringSubmatch(c.Src, -1) {
+					e.ghostSites[m[1]] = true
+				}
+			}
+		}
+		scan(e.con.Requires)
+		scan(e.con.Ensures)
+		for _, a := range e.con.Asserts {
+			scan([]*Clause{a.C})
+		}
+	}
 	order := e.findLoops()
 	for _, li := range e.loops {
-		ef := &effect{names: li.writes}
+		ef := &effect{names: li.writes, fresh: map[string]bool{}}
 		for b := range li.body {
 			for _, in := range b.Instrs {
 				e.instrEffect(in, ef)
 			}
+		}
+		for n := range ef.fresh {
+			li.writes[n] = true
 		}
 		li.all = ef.all
 	}
@@ -243,7 +317,7 @@ func (e *Enc) run() {
 		for k, c := range v.c {
 			e.inputs = append(e.inputs, c)
 			if leaves(p.Type())[k].sort == "Ref" {
-				e.assume(fmt.Sprintf("(=> ((_ is obj) %s) (<= (oid %s) |alloc!0|))", c, c))
+				e.assume(preExisting(c))
 			}
 		}
 		if i == 0 && e.fn.Signature.Recv() != nil {
@@ -363,7 +437,7 @@ func (e *Enc) run() {
 				vars["result"] = r.res[0]
 			}
 			st := r.st
-			env := &Env{e: e, st: &st, old: &e.entry, vars: vars}
+			env := &Env{e: e, st: &st, old: &e.entry, vars: vars, at: r.b.Instrs[len(r.b.Instrs)-1]}
 			for _, en := range e.con.Ensures {
 				if e.active(en) {
 					e.obligeClause("post", en, r.b.Instrs[len(r.b.Instrs)-1].Pos(), env.formula(en.E))
@@ -398,7 +472,7 @@ func (e *Enc) bindFreeVars() {
 		e.vals[fv] = v
 		for k, c := range v.c {
 			if leaves(fv.Type())[k].sort == "Ref" {
-				e.assume(fmt.Sprintf("(=> ((_ is obj) %s) (<= (oid %s) |alloc!0|))", c, c))
+				e.assume(preExisting(c))
 			}
 		}
 		if byRef[i] {
@@ -489,6 +563,32 @@ func localClosure(v ssa.Value) *ssa.Function {
 		}
 	}
 	return nil
+}
+
+// siteName is the contract-level name of a call site (without ordinal).
+func siteName(c *ssa.Call) string {
+	cc := c.Common()
+	if cc.IsInvoke() {
+		return "invoke:" + cc.Method.Name()
+	}
+	switch callee := cc.Value.(type) {
+	case *ssa.Function:
+		return siteNameOf(callee)
+	case *ssa.Builtin:
+		return "builtin:" + callee.Name()
+	}
+	nm := callbackName(cc.Value)
+	if nm == "" {
+		nm = exprText(cc.Value)
+	}
+	return "dyn:" + nm
+}
+
+// preExisting: the object r designates (directly, or as a sub-object / element up to two levels deep) was allocated
+// before the function under verification was entered.
+func preExisting(r string) string {
+	one := func(x string) string { return fmt.Sprintf("(=> ((_ is obj) %s) (<= (oid %s) |alloc!0|))", x, x) }
+	return and(one(r), one(owner(r)), one(owner(owner(r))))
 }
 
 func shorten(s string) string {
@@ -868,6 +968,25 @@ func (e *Enc) loopHeader(b *ssa.BasicBlock, li *loopInfo, fwd []*ssa.BasicBlock,
 				e.havocAll(st) // maps / element writes via builtins: coarse
 				break
 			}
+		}
+	}
+	// ghost "reached" flags of call sites inside the loop are unknown at the header
+	for site := range e.ghostSites {
+		base := site
+		if i := strings.LastIndex(base, "#"); i >= 0 {
+			base = base[:i]
+		}
+		inLoop := false
+		for blk := range li.body {
+			for _, in := range blk.Instrs {
+				if c, ok := in.(*ssa.Call); ok && siteName(c) == base {
+					inLoop = true
+				}
+			}
+		}
+		if inLoop {
+			arrSorts["G|reached|"+site] = "Bool"
+			st.m["G|reached|"+site] = e.fresh("ghost.reached", "Bool")
 		}
 	}
 	// fresh phis
